@@ -126,6 +126,14 @@ func containerFactsOnPath(pa core.Path, typ string) map[ssa.Value]map[int64]tagV
 				tv = tagVal{true, n}
 			} else if call, isC := arg.(*ssa.Call); isC && core.Callee(call) != nil && cn(core.Callee(call)) == "Byte" && len(call.Call.Args) == 1 {
 				inner := core.StripConv(call.Call.Args[0])
+				// an error code carried in a variable ( code = ...; if code != 0 { out.SetByte(TagErrCode, code.Byte()) } ): the value
+				// this path assigned
+				for k := len(pa) - 1; k >= 0; k-- {
+					if pa[k] == i.Block() {
+						inner = core.StripConv(pa.ResolveAt(k, inner))
+						break
+					}
+				}
 				if n, isK := core.ConstInt(inner); isK {
 					tv = tagVal{true, n}
 				} else if _, isStep := core.FieldLoad(inner, typ, "step"); isStep && set && known {
